@@ -76,7 +76,7 @@ pub fn next_version(rng: &mut Rng, spec: &WsSpec, file: &str, current: &str, las
         0 => current.to_string(),                 // identical resend
         1 | 2 => break_syntax(rng, current),      // break syntax
         3 => last_valid.to_string(),              // repair
-        4 => "import pytest\n".to_string(),       // removes every definition and usage
+        4 => rng.pick(&["import pytest\n", "", "# everything commented out\n# def test_x(alpha): pass\n", "\n\n", "import pytest\n"]).to_string(), // removes every definition and usage
         5 => {
             // removal-only: keep tests, drop fixtures
             let items: Vec<Item> = gen_items(rng, names, is_test, &o).into_iter().filter(|i| !matches!(i, Item::Fixture(_))).collect();
